@@ -69,3 +69,42 @@ Proof. induction its as [|it r IH]; intros s H; cbn [lrun fold_left]; [reflexivi
 Definition local_poll_ok (next latest : Z) (its : list pitem) (obs_next obs_latest obs_received obs_new : Z) (obs_illegal : bool) : bool :=
   let s := lrun (mkLS next latest 0 0 false) its in
   (ls_next s =? obs_next) && (ls_latest s =? obs_latest) && (ls_received s =? obs_received) && (ls_new s =? obs_new) && Bool.eqb (ls_illegal s) obs_illegal.
+
+(* ARBITRARY responses: the cursor advances exactly by the longest prefix of certificates that are sequential and valid
+   (local events in between do not matter), and the verdict is "illegal" exactly when some certificate lies beyond it. *)
+Fixpoint valid_prefix (from : Z) (its : list pitem) : Z :=
+  match its with
+  | [] => 0
+  | PLocal :: r => valid_prefix from r
+  | PCert n v :: r => if (n =? from) && v then 1 + valid_prefix (from + 1) r else 0
+  end.
+Fixpoint all_valid (from : Z) (its : list pitem) : bool :=
+  match its with
+  | [] => true
+  | PLocal :: r => all_valid from r
+  | PCert n v :: r => if (n =? from) && v then all_valid (from + 1) r else false
+  end.
+
+Theorem any_response_advances_by_valid_prefix its : forall s, ls_illegal s = false ->
+  ls_next (lrun s its) = ls_next s + valid_prefix (ls_next s) its /\
+  ls_received (lrun s its) = ls_received s + valid_prefix (ls_next s) its /\
+  ls_illegal (lrun s its) = negb (all_valid (ls_next s) its) /\
+  ls_latest s <= ls_latest (lrun s its).
+Proof.
+  induction its as [|it r IH]; intros s Hi; unfold lrun; cbn [fold_left valid_prefix all_valid]; [rewrite Hi; repeat split; lia|].
+  fold (lrun (lstep s it) r). remember (lstep s it) as s1 eqn:E1. unfold lstep in E1. rewrite Hi in E1.
+  destruct it as [n v|].
+  - destruct ((n =? ls_next s) && v) eqn:E; cbn [negb] in E1.
+    + apply andb_true_iff in E. destruct E as [En _]. apply Z.eqb_eq in En. subst n.
+      destruct (ls_latest s <? ls_next s) eqn:El; subst s1.
+      * specialize (IH _ (eq_refl : ls_illegal (mkLS (ls_next s + 1) (ls_next s) (ls_received s + 1) (ls_new s + 1) false) = false)).
+        cbn [ls_next ls_latest ls_received ls_illegal] in IH. destruct IH as (A & B & C & D).
+        apply Z.ltb_lt in El. repeat split; try lia. exact C.
+      * specialize (IH _ (eq_refl : ls_illegal (mkLS (ls_next s + 1) (ls_latest s) (ls_received s + 1) (ls_new s) false) = false)).
+        cbn [ls_next ls_latest ls_received ls_illegal] in IH. destruct IH as (A & B & C & D).
+        repeat split; try lia. exact C.
+    + subst s1. rewrite illegal_is_final by reflexivity. cbn [ls_next ls_latest ls_received ls_illegal negb]. repeat split; lia.
+  - subst s1. specialize (IH _ (eq_refl : ls_illegal (mkLS (ls_next s) (ls_latest s + 1) (ls_received s) (ls_new s) false) = false)).
+    cbn [ls_next ls_latest ls_received ls_illegal] in IH. destruct IH as (A & B & C & D).
+    repeat split; try lia; assumption.
+Qed.
